@@ -1,4 +1,26 @@
-(* Proofs about the event-level model of host promotion (Promotion.v): C07 and the defect S8. *)
+(* Proofs about the event-level model of host promotion (Promotion.v): C07, the defect S8, and what
+   breaks a second promotion.
+
+   Part 0-1  the enumeration of internal events is complete; [stable] is decidable; soundness of the
+             exhaustive check [checkb] (closed set + decreasing measure + good stable states).
+   Part 2    C07_single_client_promotion, C07_single_client (= C07_statement 1 1): one client, every
+             interleaving, termination measure [measure] (at most 27 events).
+   Part 3    one step seen from one peer (any N, any event): sticky_step, stranded_frozen,
+             stranded_never_connects (the S8 stuck lemma).
+   Part 4    S8: C07_refuted_two_clients (witness + stuck), C07_statement_two_clients_false,
+             C07_two_clients_every_run / C07_three_clients_every_run (NO interleaving succeeds).
+   Part 5    invariants for every N: promotion_preserves_roles_invariant (any events),
+             hosting/flag "change only at" lemmas, window_step / hosting_after_promotion (a promoted
+             peer that hosts keeps hosting), channel shapes, single_promotion_invariant [spi]
+             (at most two hosts, the one Promote, only NewHost(k) relayed, other clients untouched or
+             stranded, nobody but the old host ever joins the new one), at_most_two_hosts,
+             promoted_host_keeps_hosting, C07_never_with_more_clients (S8 for every n >= 2).
+   Part 6    C07_chain_of_promotions (the swap back works iff the first promoted peer's RenetClient
+             survived the kick), C07_chain_refuted.
+
+   Open: the decrease of [measure] is proved on the complete reachable sets for 2, 3 and 4 peers
+   (by computation), not for arbitrary n; for arbitrary n "every stable state has all other clients
+   stranded" is proved as a safety property (untouched or stranded at every point), not as liveness. *)
 From Coq Require Import NArith List Lia.
 From stdpp Require Import gmap list.
 From RecordUpdate Require Import RecordSet.
@@ -176,8 +198,8 @@ Proof. split; vm_compute; reflexivity. Qed.
 
 (* all states reachable after the request, computed *)
 Definition R1 : list pstate := default [] (explore 1000 [promoted 1 1] []).
-Lemma R1_checked : checkb (fun s => handed_overb s 1 0) R1 = true.
-Proof. vm_compute. reflexivity. Qed.
+Lemma R1_checked : checkb (fun s => handed_overb s 1 0 && bool_decide (session_ok s 1)) R1 = true.
+Proof. vm_cast_no_check (eq_refl true). Qed.
 Lemma R1_start : promoted 1 1 ∈ R1.
 Proof. apply inb_true. vm_compute. reflexivity. Qed.
 
@@ -194,13 +216,23 @@ Proof.
   intros tr s Hall Hrun.
   destruct (check_run _ _ R1_checked _ _ _ R1_start Hall Hrun) as [Hin Hle].
   split; [exact Hle|]. split; [|split].
-  - intros Hst. apply handed_overb_true. exact (check_stable _ _ _ R1_checked Hin Hst).
+  - intros Hst. apply handed_overb_true.
+    exact (proj1 (proj1 (andb_true_iff _ _) (check_stable _ _ _ R1_checked Hin Hst))).
   - intros Hn. destruct (not_stable _ Hn) as (e & s' & Hi & Hs). exists e, s'.
     split; [exact Hi|]. split; [exact Hs|]. exact (proj2 (check_step _ _ _ _ _ R1_checked Hin Hi Hs)).
   - destruct (check_completes _ _ R1_checked _ Hin) as (tr' & s' & H1 & H2 & H3 & H4).
-    exists tr', s'. split; [exact H1|]. split; [exact H2|]. split; [exact H3|]. apply handed_overb_true. exact H4.
+    exists tr', s'. split; [exact H1|]. split; [exact H2|]. split; [exact H3|]. apply handed_overb_true.
+    exact (proj1 (proj1 (andb_true_iff _ _) H4)).
 Qed.
 Print Assumptions C07_single_client_promotion.
+
+(* the full statement of C07 (Promotion.v) holds for one client *)
+Corollary C07_single_client : C07_statement 1 1.
+Proof.
+  intros tr s Hall Hrun Hst. destruct (check_run _ _ R1_checked _ _ _ R1_start Hall Hrun) as [Hin _].
+  pose proof (check_stable _ _ _ R1_checked Hin Hst) as Hg. apply andb_true_iff in Hg as [_ Hg].
+  apply bool_decide_eq_true in Hg. exact Hg.
+Qed.
 
 Example measure_promoted_1_1 : measure (promoted 1 1) = 27%nat.
 Proof. vm_compute. reflexivity. Qed.
@@ -245,8 +277,6 @@ Ltac ins_cases :=
              [rewrite lookup_insert | rewrite lookup_insert_ne by assumption]
          end.
 
-Definition pget {A} (f : ppeer -> A) (d : A) (s : pstate) (p : peer) : A :=
-  match ps s !! p with Some x => f x | None => d end.
 
 (* the RenetClient object is never reconstructed: no event resets [sticky] *)
 Lemma sticky_step s e s' p : step s e = Some s' -> pget sticky false s p = true -> pget sticky false s' p = true.
@@ -273,17 +303,25 @@ Ltac same_lookup :=
 
 Definition strandedP (s : pstate) (p : peer) : Prop := pget stranded False s p.
 
+(* a stranded peer is frozen: target and flag never change again *)
+Lemma stranded_frozen s e s' p x :
+  step s e = Some s' -> ps s !! p = Some x -> stranded x ->
+  exists x', ps s' !! p = Some x' /\ stranded x' /\ client_of x' = client_of x /\ flag x' = flag x.
+Proof.
+  intros Hs Hxp (S1 & S2 & S3 & S4 & S5 & S6).
+  destruct e; step_inv Hs; pssimpl; ins_cases; same_lookup; rewrite ?Hxp; bool_hyps;
+    unfold stranded, srv_gate, cli_gate in *; simpl; bool_hyps;
+    try (eexists; split; [reflexivity|]; simpl; split_and?; (assumption || reflexivity || eauto));
+    try congruence.
+  match goal with H : is_cdisc (cli_state _) = true |- _ => rewrite S4 in H; discriminate end.
+Qed.
+
 (* S8, the stuck lemma: once stranded, for ever stranded -- whatever happens afterwards, new
    promotions by the application included, in a session of any size *)
 Lemma stranded_step s e s' p : step s e = Some s' -> strandedP s p -> strandedP s' p.
 Proof.
   intros Hs Hp. unfold strandedP, pget in *. destruct (ps s !! p) as [xp|] eqn:Hxp; [|contradiction].
-  destruct Hp as (S1 & S2 & S3 & S4 & S5 & S6).
-  destruct e; step_inv Hs; pssimpl; ins_cases; same_lookup; rewrite ?Hxp; bool_hyps;
-    unfold stranded, srv_gate, cli_gate in *; simpl; bool_hyps;
-    try (split_and?; (assumption || reflexivity || eauto));
-    try congruence.
-  rewrite S4 in Heqb0. discriminate.
+  destruct (stranded_frozen s e s' p xp Hs Hxp Hp) as (x' & -> & Hst & _). exact Hst.
 Qed.
 
 Lemma stranded_run tr : forall s s' p, run s tr = Some s' -> strandedP s p -> strandedP s' p.
@@ -364,7 +402,7 @@ Qed.
    cannot be continued ends with 0 moved over to 1 and 2 stranded *)
 Definition R2 : list pstate := default [] (explore (100 * 100) [promoted 2 1] []).
 Lemma R2_checked : checkb s8_outcomeb R2 = true.
-Proof. vm_compute. reflexivity. Qed.
+Proof. vm_cast_no_check (eq_refl true). Qed.
 Lemma R2_start : promoted 2 1 ∈ R2.
 Proof. apply inb_true. vm_compute. reflexivity. Qed.
 
@@ -386,6 +424,44 @@ Proof.
     exists tr', s'. split; [exact H1|]. split; [exact H2|]. split; [exact H3|]. apply s8_outcomeb_true. exact H4.
 Qed.
 Print Assumptions C07_two_clients_every_run.
+
+(* the same with THREE clients (4 peers, 1561 reachable states): every run terminates, and every run
+   that cannot be continued ends with 0 moved over to 1 and BOTH other clients stranded *)
+Definition three_clients_outcome (s : pstate) : Prop :=
+  exists x0 x1 x2 x3, ps s !! (0 : peer) = Some x0 /\ ps s !! (1 : peer) = Some x1 /\
+    ps s !! (2 : peer) = Some x2 /\ ps s !! (3 : peer) = Some x3 /\
+    stranded x2 /\ stranded x3 /\ hosting x1 = true /\ clients x1 = [0] /\
+    client_of x0 = Some 1 /\ link_up x0 = true /\ cli_state x0 = CConnected.
+Definition three_clients_outcomeb (s : pstate) : bool :=
+  match ps s !! (0 : peer), ps s !! (1 : peer), ps s !! (2 : peer), ps s !! (3 : peer) with
+  | Some x0, Some x1, Some x2, Some x3 =>
+      bool_decide (stranded x2 /\ stranded x3 /\ hosting x1 = true /\ clients x1 = [0] /\
+                   client_of x0 = Some 1 /\ link_up x0 = true /\ cli_state x0 = CConnected)
+  | _, _, _, _ => false
+  end.
+Lemma three_clients_outcomeb_true s : three_clients_outcomeb s = true -> three_clients_outcome s.
+Proof.
+  unfold three_clients_outcomeb, three_clients_outcome. repeat case_match; try discriminate.
+  rewrite bool_decide_eq_true. intros Hb. eexists _, _, _, _. tauto.
+Qed.
+Definition R3 : list pstate := default [] (explore (200 * 100) [promoted 3 1] []).
+Lemma R3_checked : inb (promoted 3 1) R3 && checkb three_clients_outcomeb R3 = true.
+Proof. vm_cast_no_check (eq_refl true). Qed.
+
+Theorem C07_three_clients_every_run :
+  forall tr s, all_internal tr -> run (promoted 3 1) tr = Some s ->
+    (length tr + measure s <= measure (promoted 3 1%N))%nat
+    /\ (stable s -> three_clients_outcome s)
+    /\ (exists tr' s', all_internal tr' /\ run s tr' = Some s' /\ stable s' /\ three_clients_outcome s').
+Proof.
+  intros tr s Hall Hrun. pose proof R3_checked as Hc. apply andb_true_iff in Hc as [Hs0 Hc]. apply inb_true in Hs0.
+  destruct (check_run _ _ Hc _ _ _ Hs0 Hall Hrun) as [Hin Hle].
+  split; [exact Hle|]. split.
+  - intros Hst. apply three_clients_outcomeb_true. exact (check_stable _ _ _ Hc Hin Hst).
+  - destruct (check_completes _ _ Hc _ Hin) as (tr' & s' & H1 & H2 & H3 & H4).
+    exists tr', s'. split; [exact H1|]. split; [exact H2|]. split; [exact H3|]. apply three_clients_outcomeb_true. exact H4.
+Qed.
+Print Assumptions C07_three_clients_every_run.
 
 (* both endings occur: the old host closes its server (its last ClientDisconnected arrived while
    the flag was still set) or keeps it for ever (verify_client_connected consumed the flag first) *)
@@ -432,8 +508,8 @@ Proof.
     try (first [ tauto | congruence | eauto using NoDup_without, NoDup_snoc_fresh; fail ]).
   all: try (split_and?; first [ tauto | congruence | eauto using NoDup_without, NoDup_snoc_fresh; fail ]).
   all: try (destruct (hosting _) eqn:?; intuition congruence).
-  - destruct (client_of p1) eqn:?; [left; eauto|destruct (W2 eq_refl); congruence].
-  - destruct (clients p0); [auto|discriminate].
+  - match goal with |- is_Some (client_of ?y) \/ _ => destruct (client_of y) eqn:? end; [left; eauto|destruct (W2 eq_refl); congruence].
+  - match goal with H : is_nil (clients ?y) = true |- _ => destruct (clients y) end; [auto|discriminate].
 Qed.
 
 Lemma insert_dom (m : gmap peer ppeer) i x j : is_Some (m !! i) -> (is_Some (<[i:=x]> m !! j) <-> is_Some (m !! j)).
@@ -471,7 +547,9 @@ Proof.
     try (eapply Hlk; eassumption);
     simpl in Hl, Hc; try discriminate;
     try (eapply Hlk; eassumption).
-  bool_hyps. rewrite Heqo0 in Hc. injection Hc as <-. split; [assumption|eauto].
+  bool_hyps.
+  match goal with H1 : client_of ?y = Some ?a, H2 : client_of ?y = Some ?b |- _ => assert (a = b) by congruence; subst end.
+  split; [assumption|eauto].
 Qed.
 
 Lemma roles_inv_step s e s' : roles_inv s -> step s e = Some s' -> roles_inv s'.
@@ -646,6 +724,551 @@ Proof.
     + rewrite Hq. simpl. eauto.
 Qed.
 
+(* ---------- channels after one step ---------- *)
+
+Lemma chan_push M a b m a' b' : chan (push M a b m) a' b' = if decide ((a', b') = (a, b)) then chan M a b ++ [m] else chan M a' b'.
+Proof.
+  unfold push. unfold chan at 1. case_decide; simplify_eq.
+  - rewrite lookup_insert. reflexivity.
+  - rewrite lookup_insert_ne by congruence. reflexivity.
+Qed.
+Lemma chan_delete M a b a' b' : chan (delete (a, b) M) a' b' = if decide ((a', b') = (a, b)) then [] else chan M a' b'.
+Proof.
+  unfold chan. case_decide; simplify_eq.
+  - rewrite lookup_delete. reflexivity.
+  - rewrite lookup_delete_ne by congruence. reflexivity.
+Qed.
+
+Lemma chan_setchan M a b l a' b' : chan (setchan M a b l) a' b' = if decide ((a', b') = (a, b)) then l else chan M a' b'.
+Proof.
+  unfold setchan. destruct l as [|m l]; [apply chan_delete|].
+  unfold chan. case_decide; simplify_eq.
+  - rewrite lookup_insert. reflexivity.
+  - rewrite lookup_insert_ne by congruence. reflexivity.
+Qed.
+
+Lemma down_setp s p x : down (setp s p x) = down s. Proof. reflexivity. Qed.
+Lemma down_push_up s a b m : down (push_up s a b m) = down s. Proof. reflexivity. Qed.
+Lemma down_push_down s a b m : down (push_down s a b m) = push (down s) a b m. Proof. reflexivity. Qed.
+Lemma down_drop_link s c h : down (drop_link s c h) = delete (h, c) (down s). Proof. reflexivity. Qed.
+Lemma down_mk a b c : down (PState a b c) = c. Proof. reflexivity. Qed.
+Lemma up_setp s p x : up (setp s p x) = up s. Proof. reflexivity. Qed.
+Lemma up_push_up s a b m : up (push_up s a b m) = push (up s) a b m. Proof. reflexivity. Qed.
+Lemma up_push_down s a b m : up (push_down s a b m) = up s. Proof. reflexivity. Qed.
+Lemma up_drop_link s c h : up (drop_link s c h) = delete (c, h) (up s). Proof. reflexivity. Qed.
+Lemma up_mk a b c : up (PState a b c) = b. Proof. reflexivity. Qed.
+Lemma up_relay s h l m : up (relay s h l m) = up s.
+Proof. induction l as [|d l IH]; simpl; [reflexivity|]. exact IH. Qed.
+
+Lemma chan_down_relay s h l m a b :
+  exists l', chan (down (relay s h l m)) a b = chan (down s) a b ++ l' /\
+             (l' = [] \/ (a = h /\ b ∈ l /\ forall m', m' ∈ l' -> m' = m)).
+Proof.
+  induction l as [|d l (l' & IH & Hl')].
+  - exists []. simpl. rewrite app_nil_r. auto.
+  - change (relay s h (d :: l) m) with (push_down (relay s h l m) h d m).
+    rewrite down_push_down, chan_push. case_decide as Hd.
+    + injection Hd as -> ->.
+      exists (l' ++ [m]). rewrite IH, <- app_assoc. split; [reflexivity|]. right. split; [reflexivity|].
+      split; [left|]. intros m' Hm'. apply elem_of_app in Hm' as [Hm'|Hm'].
+      * destruct Hl' as [->|(_ & _ & H)]; [inversion Hm'|auto].
+      * apply elem_of_list_singleton in Hm'. exact Hm'.
+    + exists l'. split; [exact IH|]. destruct Hl' as [->|(-> & Hb & H)]; [left; reflexivity|].
+      right. split; [reflexivity|]. split; [right; exact Hb|exact H].
+Qed.
+
+Lemma chan_down_drop_link_of s c t a b :
+  chan (down (drop_link_of s c t)) a b = if decide (t = Some a /\ b = c) then [] else chan (down s) a b.
+Proof.
+  destruct t as [h|]; simpl.
+  - rewrite chan_delete. destruct (decide ((a, b) = (h, c))) as [E|E];
+      destruct (decide (Some h = Some a /\ b = c)) as [F|F]; try reflexivity; exfalso.
+    + injection E as -> ->. apply F. auto.
+    + destruct F as [Fa ->]. injection Fa as ->. apply E. reflexivity.
+  - first [reflexivity | case_decide as H; [destruct H; discriminate|reflexivity]].
+Qed.
+Lemma chan_up_drop_link_of s c t a b :
+  chan (up (drop_link_of s c t)) a b = if decide (t = Some b /\ a = c) then [] else chan (up s) a b.
+Proof.
+  destruct t as [h|]; simpl.
+  - rewrite chan_delete. destruct (decide ((a, b) = (c, h))) as [E|E];
+      destruct (decide (Some h = Some b /\ a = c)) as [F|F]; try reflexivity; exfalso.
+    + injection E as -> ->. apply F. auto.
+    + destruct F as [Fa ->]. injection Fa as ->. apply E. reflexivity.
+  - first [reflexivity | case_decide as H; [destruct H; discriminate|reflexivity]].
+Qed.
+
+Ltac chan_norm :=
+  repeat first [ rewrite chan_down_drop_link_of | rewrite chan_up_drop_link_of
+               | rewrite down_drop_link | rewrite down_push_up | rewrite down_setp | rewrite down_mk | rewrite down_push_down
+               | rewrite up_relay | rewrite up_drop_link | rewrite up_push_up | rewrite up_setp | rewrite up_mk | rewrite up_push_down
+               | rewrite chan_delete | rewrite chan_setchan | rewrite chan_push ].
+
+Lemma down_shape s e s' h c : internal e = true -> step s e = Some s' ->
+  exists base l, chan (down s') h c = base ++ l /\
+    ((e <> EDeliverDown h c /\ base = chan (down s) h c) \/
+     (e = EDeliverDown h c /\ exists m0, chan (down s) h c = m0 :: base) \/ base = []) /\
+    (l = [] \/ exists a q x, e = EDeliverUp a h /\ head (chan (up s) a h) = Some (NewHost q) /\
+                 ps s !! h = Some x /\ c ∈ without a (clients x) /\ forall m, m ∈ l -> m = NewHost q).
+Proof.
+  intros Hi Hs. destruct e; try discriminate Hi; step_inv Hs.
+  all: try (eexists _, []; rewrite app_nil_r; split; [reflexivity|]; split; [|left; reflexivity];
+            chan_norm; repeat case_decide; simplify_eq;
+            first [ left; split; [intros ?; simplify_eq; naive_solver|reflexivity]
+                  | right; right; reflexivity
+                  | right; left; split; [reflexivity|eexists; eassumption] ]).
+  all: match goal with |- context [relay ?s0 ?h0 ?ds ?m] =>
+         destruct (chan_down_relay s0 h0 ds m h c) as (l' & Hrel & Hl'); exists (chan (down s0) h c), l' end;
+       (split; [exact Hrel|]); split.
+  all: try (chan_norm; repeat case_decide; simplify_eq;
+            first [ left; split; [intros ?; simplify_eq|reflexivity] | right; right; reflexivity ]).
+  all: destruct Hl' as [->|(-> & Hin & Hall)]; [left; reflexivity|right];
+       eexists _, _, _; (split; [reflexivity|]);
+       (split; [match goal with H : chan _ _ _ = _ |- _ => rewrite H end; reflexivity|]);
+       (split; [eassumption|]); split; assumption.
+Qed.
+
+Lemma up_shape s e s' c h : internal e = true -> step s e = Some s' ->
+  exists base l, chan (up s') c h = base ++ l /\
+    ((e <> EDeliverUp c h /\ base = chan (up s) c h) \/
+     (e = EDeliverUp c h /\ exists m0, chan (up s) c h = m0 :: base) \/ base = []) /\
+    (l = [] \/
+     (l = [NewHost c] /\ e = ESrvUp c /\
+        exists x, ps s !! c = Some x /\ client_of x = Some h /\ srv_added x = true /\ srv_state x = SDisconnected) \/
+     (l = [ReqInit] /\ e = EVerify c)).
+Proof.
+  intros Hi Hs. destruct e; try discriminate Hi; step_inv Hs; bool_hyps.
+  all: chan_norm; repeat case_decide; simplify_eq.
+  all: first [ eexists _, [_]; split; [reflexivity|] | eexists _, []; split; [rewrite app_nil_r; reflexivity|] ].
+  all: split;
+       [ first [ left; split; [intros ?; simplify_eq|reflexivity]
+               | right; right; reflexivity
+               | right; left; split; [reflexivity|eexists; eassumption] ]
+       | first [ left; reflexivity
+               | right; left; split; [reflexivity|]; split; [reflexivity|]; eexists; split_and?; eassumption
+               | right; right; split; reflexivity ] ].
+Qed.
+
+(* ---------- more "changes only at" lemmas ---------- *)
+
+Lemma srv_added_rises_only_by_promote s e s' p :
+  step s e = Some s' -> pget srv_added true s p = false -> pget srv_added false s' p = true ->
+  exists h, e = EDeliverDown h p /\ head (chan (down s) h p) = Some Promote.
+Proof.
+  intros Hs H1 H2. unfold pget in *.
+  destruct e; step_inv Hs; pssimpl_in H2; ins_cases_in H2; use_lookups; simpl in *; try congruence;
+    try (destruct (ps s !! p) eqn:?; congruence).
+  all: try (eexists; split; [reflexivity|]; match goal with H : chan _ _ _ = _ |- _ => rewrite H end; reflexivity).
+Qed.
+
+Lemma client_of_changes_only s e s' p :
+  step s e = Some s' -> pget client_of None s' p <> pget client_of None s p ->
+  (exists h q, e = EDeliverDown h p /\ head (chan (down s) h p) = Some (NewHost q) /\ pget client_of None s' p = Some q) \/
+  (exists c q, e = EDeliverUp c p /\ head (chan (up s) c p) = Some (NewHost q) /\ pget client_of None s' p = Some q) \/
+  (e = ENotify p /\ pget client_of None s' p = None).
+Proof.
+  intros Hs H2. unfold pget in *.
+  destruct e; step_inv Hs; revert H2; pssimpl; ins_cases; intros H2; use_lookups;
+    repeat match goal with H : ps s !! ?q = Some _ |- _ => rewrite H in * end; simpl in *; try congruence.
+  all: try match goal with H : chan _ _ _ = _ |- _ =>
+         first [ left; eexists _, _; split; [reflexivity|]; split; [rewrite H; reflexivity|reflexivity]
+               | right; left; eexists _, _; split; [reflexivity|]; split; [rewrite H; reflexivity|reflexivity] ] end.
+  all: try (right; right; split; reflexivity).
+Qed.
+
+Lemma deliver_down_head s h c s' : step s (EDeliverDown h c) = Some s' -> exists m, head (chan (down s) h c) = Some m.
+Proof. intros Hs. step_inv Hs; simpl; eauto. Qed.
+Lemma deliver_up_head s c h s' : step s (EDeliverUp c h) = Some s' -> exists m, head (chan (up s) c h) = Some m.
+Proof. intros Hs. step_inv Hs; simpl; eauto. Qed.
+
+Lemma head_elem_of {A} (l : list A) m : head l = Some m -> m ∈ l.
+Proof. destruct l; simpl; [discriminate|]. intros [= ->]. left. Qed.
+
+(* the client table of a server grows only when a live RenetClient that targets it connects *)
+Lemma clients_grow_only_by_connect s e s' h x x' c :
+  step s e = Some s' -> ps s !! h = Some x -> ps s' !! h = Some x' -> c ∈ clients x' -> c ∉ clients x ->
+  e = EConnect c /\ pget client_of None s c = Some h /\ pget sticky true s c = false.
+Proof.
+  intros Hs Hx Hx' Hin Hnin. unfold pget.
+  destruct e; step_inv Hs; pssimpl_in Hx'; ins_cases_in Hx'; same_lookup; rewrite ?Hx in *; simplify_eq; simpl in *;
+    try contradiction; try (rewrite elem_of_without in Hin; tauto).
+  apply elem_of_app in Hin as [Hin|Hin]; [contradiction|]. apply elem_of_list_singleton in Hin. subst c0.
+  bool_hyps. match goal with H : ps s !! c = Some _ |- _ => rewrite H end. auto.
+Qed.
+
+(* what can happen to an untouched client itself *)
+Lemma untouched_self s e s' c x :
+  step s e = Some s' -> ps s !! c = Some x -> untouched s c x -> c <> host ->
+  exists x', ps s' !! c = Some x' /\
+    ((hosting x' = false /\ client_of x' = Some host /\ link_up x' = true /\ cli_state x' = CConnected /\ cli_removed x' = false)
+     \/ (e = EDeliverDown host c /\ head (chan (down s) host c) = Some Promote)
+     \/ (exists q, e = EDeliverDown host c /\ head (chan (down s) host c) = Some (NewHost q) /\
+                   stranded x' /\ client_of x' = Some q /\ flag x' = true)).
+Proof.
+  intros Hs Hx (U1 & U2 & U3 & U4 & U5 & x0 & U6 & U7 & U8) Hc.
+  destruct e; step_inv Hs; pssimpl; ins_cases; same_lookup; rewrite ?Hx; bool_hyps;
+    unfold srv_gate, cli_gate in *; simpl; bool_hyps;
+    try (eexists; split; [reflexivity|]; left; simpl; split_and?; (assumption || reflexivity));
+    try congruence.
+  all: repeat match goal with
+              | H1 : client_of ?y = Some host, H2 : client_of ?y = Some ?b |- _ =>
+                  assert (b = host) by congruence; subst b; clear H2
+              end; same_lookup.
+  - eexists; split; [reflexivity|]. right; left. split; [reflexivity|]. match goal with H : chan _ _ _ = _ |- _ => rewrite H end. reflexivity.
+  - eexists; split; [reflexivity|]. right; right. eexists. split; [reflexivity|]. split; [match goal with H : chan _ _ _ = _ |- _ => rewrite H end; reflexivity|].
+    unfold stranded; simpl. split_and?; eauto.
+  - match goal with H : is_cdisc (cli_state _) = true |- _ => rewrite U4 in H; discriminate end.
+  - exfalso. match goal with H : _ || _ = true |- _ => apply orb_true_iff in H as [H|H] end; bool_hyps; congruence.
+Qed.
+
+(* ... and to its entry in the old host's client table *)
+Lemma untouched_host s e s' c x x0 :
+  step s e = Some s' -> ps s !! c = Some x -> client_of x = Some host -> link_up x = true -> c <> host ->
+  ps s !! host = Some x0 -> hosting x0 = true -> c ∈ clients x0 ->
+  (forall q, e = EDeliverUp c host -> head (chan (up s) c host) <> Some (NewHost q)) ->
+  exists x0', ps s' !! host = Some x0' /\ hosting x0' = true /\ c ∈ clients x0'.
+Proof.
+  intros Hs Hx U2 U3 Hc U6 U7 U8 Hno.
+  destruct e; step_inv Hs; pssimpl; ins_cases; same_lookup; rewrite ?U6; bool_hyps;
+    unfold srv_gate, cli_gate in *; simpl; bool_hyps;
+    try (eexists; split; [reflexivity|]; simpl; split; (assumption || reflexivity));
+    try congruence.
+  - destruct (decide (c = c0)) as [->|Hne]; [exfalso; eapply Hno; [reflexivity|match goal with H : chan _ _ _ = _ |- _ => rewrite H end; reflexivity]|].
+    eexists; split; [reflexivity|]; simpl. split; [assumption|]. apply elem_of_without. auto.
+  - destruct (decide (c = c0)) as [->|Hne]; [exfalso; eapply Hno; [reflexivity|match goal with H : chan _ _ _ = _ |- _ => rewrite H end; reflexivity]|].
+    eexists; split; [reflexivity|]; simpl. split; [assumption|]. apply elem_of_without. auto.
+  - exfalso. match goal with H : is_nil (clients ?y) = true |- _ => destruct (clients y) end; [inversion U8|discriminate].
+  - eexists; split; [reflexivity|]; simpl. split; [assumption|]. apply elem_of_app. left. assumption.
+  - eexists; split; [reflexivity|]; simpl. split; [assumption|]. apply elem_of_without. split; [|assumption].
+    intros ->. same_lookup.
+    match goal with H : _ && _ = false |- _ => apply andb_false_iff in H as [H|H] end; bool_hyps; congruence.
+Qed.
+
+Lemma pget_Some {A} (f : ppeer -> A) d s p x : ps s !! p = Some x -> pget f d s p = f x.
+Proof. intros H. unfold pget. rewrite H. reflexivity. Qed.
+
+Lemma spi_step k s e s' : roles_inv s -> spi k s -> internal e = true -> step s e = Some s' -> spi k s'.
+Proof.
+  intros Hinv (Hk & H1 & H2 & H3 & H4 & H5 & H6 & H7 & H8 & H9) Hi Hs.
+  pose proof (step_dom _ _ _ Hs) as Hdom.
+  assert (Hup : forall c h q, head (chan (up s) c h) = Some (NewHost q) -> q = k /\ c = k /\ h = host).
+  { intros c h q Hh. apply head_elem_of in Hh. destruct (H6 _ _ _ Hh) as [?|(? & ? & ?)]; [discriminate|]. simplify_eq. auto. }
+  assert (Hold : forall p x', ps s' !! p = Some x' -> exists x, ps s !! p = Some x).
+  { intros p x' Hx'. apply (Hdom p). eauto. }
+  split; [exact Hk|]. split_and?.
+  - (* hosts *)
+    intros p x' Hx' Hh. destruct (Hold _ _ Hx') as [x Hx].
+    destruct (hosting x) eqn:Hhx; [eapply H1; eauto|].
+    destruct (hosting_rises_only_by_promote s e s' p Hs) as (h & -> & Hhead).
+    { rewrite (pget_Some _ _ _ _ _ Hx). exact Hhx. } { rewrite (pget_Some _ _ _ _ _ Hx'). exact Hh. }
+    apply head_elem_of in Hhead. destruct (H5 _ _ _ Hhead) as (_ & [(? & _)|(_ & -> & _)]); [discriminate|]. right; reflexivity.
+  - (* srv_added *)
+    intros p x' Hx' Hh. destruct (Hold _ _ Hx') as [x Hx].
+    destruct (srv_added x) eqn:Hhx; [eapply H2; eauto|].
+    destruct (srv_added_rises_only_by_promote s e s' p Hs) as (h & -> & Hhead).
+    { rewrite (pget_Some _ _ _ _ _ Hx). exact Hhx. } { rewrite (pget_Some _ _ _ _ _ Hx'). exact Hh. }
+    apply head_elem_of in Hhead. destruct (H5 _ _ _ Hhead) as (_ & [(? & _)|(_ & -> & _)]); [discriminate|]. reflexivity.
+  - (* the target of k *)
+    intros x' h Hx' Hc. destruct (Hold _ _ Hx') as [x Hx].
+    destruct (decide (client_of x = Some h)) as [Heq|Hne]; [eapply H3; eauto|].
+    destruct (client_of_changes_only s e s' k Hs) as [(h0 & q & -> & Hhead & Hq)|[(c & q & -> & Hhead & Hq)|(-> & Hq)]].
+    { rewrite (pget_Some _ _ _ _ _ Hx), (pget_Some _ _ _ _ _ Hx'). congruence. }
+    + apply head_elem_of in Hhead. destruct (H5 _ _ _ Hhead) as (_ & [(_ & ? & _)|(? & _)]); [congruence|discriminate].
+    + destruct (Hup _ _ _ Hhead) as (_ & _ & ?). congruence.
+    + rewrite (pget_Some _ _ _ _ _ Hx') in Hq. congruence.
+  - (* the target of the old host *)
+    intros x' h Hx' Hc. destruct (Hold _ _ Hx') as [x Hx].
+    destruct (decide (client_of x = Some h)) as [Heq|Hne]; [eapply H4; eauto|].
+    destruct (client_of_changes_only s e s' host Hs) as [(h0 & q & -> & Hhead & Hq)|[(c & q & -> & Hhead & Hq)|(-> & Hq)]].
+    { rewrite (pget_Some _ _ _ _ _ Hx), (pget_Some _ _ _ _ _ Hx'). congruence. }
+    + apply head_elem_of in Hhead. destruct (H5 _ _ _ Hhead) as (_ & [(_ & _ & ?)|(? & _)]); [congruence|discriminate].
+    + destruct (Hup _ _ _ Hhead) as (-> & _ & _). rewrite (pget_Some _ _ _ _ _ Hx') in Hq. congruence.
+    + rewrite (pget_Some _ _ _ _ _ Hx') in Hq. congruence.
+  - (* downstream traffic *)
+    intros h c m Hm. destruct (down_shape s e s' h c Hi Hs) as (base & l & Heq & Hbase & Hl).
+    rewrite Heq in Hm. apply elem_of_app in Hm as [Hm|Hm].
+    + assert (Hmo : m ∈ chan (down s) h c).
+      { destruct Hbase as [(_ & <-)|[(_ & m0 & ->)| ->]]; [exact Hm|right; exact Hm|inversion Hm]. }
+      destruct (H5 _ _ _ Hmo) as (-> & [(-> & ? & ?)|(-> & -> & Hch & Hhk)]); (split; [reflexivity|]); [left; auto|].
+      right. split; [reflexivity|]. split; [reflexivity|].
+      destruct Hbase as [(Hne & ->)|[(_ & m0 & Hpop)| ->]]; [|rewrite Hch in Hpop; simplify_eq; inversion Hm|inversion Hm].
+      split.
+      * rewrite Heq, Hch. destruct Hl as [->|(a & q & x & -> & Hhead & Hx & Hin & _)]; [reflexivity|].
+        destruct (Hup _ _ _ Hhead) as (_ & -> & _). apply elem_of_without in Hin. tauto.
+      * unfold pget in Hhk |- *. destruct (ps s !! k) as [x|] eqn:Hx; [|discriminate].
+        destruct (proj2 (Hdom k) (ex_intro _ x Hx)) as [x' Hx']. rewrite Hx'.
+        destruct (hosting x') eqn:Hh'; [|reflexivity]. exfalso.
+        destruct (hosting_rises_only_by_promote s e s' k Hs) as (h0 & -> & Hhead).
+        { rewrite (pget_Some _ _ _ _ _ Hx). exact Hhk. } { rewrite (pget_Some _ _ _ _ _ Hx'). exact Hh'. }
+        apply head_elem_of in Hhead. destruct (H5 _ _ _ Hhead) as (-> & _). apply Hne. reflexivity.
+    + destruct Hl as [->|(a & q & x & -> & Hhead & Hx & Hin & Hall)]; [inversion Hm|].
+      destruct (Hup _ _ _ Hhead) as (-> & -> & ->). rewrite (Hall _ Hm). split; [reflexivity|]. left.
+      apply elem_of_without in Hin as [Hne Hin]. split; [reflexivity|]. split; [exact Hne|].
+      destruct Hinv as (_ & Hcl & _). destruct (Hcl _ _ _ Hx Hin) as [? _]. assumption.
+  - (* upstream traffic *)
+    intros c h m Hm. destruct (up_shape s e s' c h Hi Hs) as (base & l & Heq & Hbase & Hl).
+    rewrite Heq in Hm. apply elem_of_app in Hm as [Hm|Hm].
+    + apply (H6 c h m). destruct Hbase as [(_ & <-)|[(_ & m0 & ->)| ->]]; [exact Hm|right; exact Hm|inversion Hm].
+    + destruct Hl as [->|[(-> & -> & x & Hx & Hco & Hsa & _)|(-> & _)]]; [inversion Hm| |].
+      * apply elem_of_list_singleton in Hm as ->. right.
+        pose proof (H2 _ _ Hx Hsa) as ->. split; [reflexivity|]. split; [reflexivity|]. eapply H3; eauto.
+      * apply elem_of_list_singleton in Hm as ->. left. reflexivity.
+  - (* the other clients *)
+    intros c x' Hx' Hc0 Hck. destruct (Hold _ _ Hx') as [x Hx].
+    destruct (H7 c x Hx Hc0 Hck) as [Hu|(Hst & Hco & Hfl)].
+    + destruct (untouched_self s e s' c x Hs Hx Hu Hc0) as (x'' & Hx'' & Hcases).
+      rewrite Hx' in Hx''. injection Hx'' as <-.
+      destruct Hcases as [(U1 & U2 & U3 & U4 & U5)|[(-> & Hhead)|(q & -> & Hhead & Hst & Hco & Hfl)]].
+      * left. unfold untouched. split_and?; try assumption.
+        destruct Hu as (_ & V2 & V3 & _ & _ & x0 & V6 & V7 & V8).
+        eapply (untouched_host s e s' c x x0); eauto.
+        intros q -> Hhead. destruct (Hup _ _ _ Hhead) as (_ & ? & _). contradiction.
+      * exfalso. apply head_elem_of in Hhead. destruct (H5 _ _ _ Hhead) as (_ & [(? & _)|(_ & ? & _)]); [discriminate|contradiction].
+      * right. apply head_elem_of in Hhead. destruct (H5 _ _ _ Hhead) as (_ & [(Hq & _)|(? & _)]); [|discriminate].
+        injection Hq as ->. auto.
+    + right. destruct (stranded_frozen s e s' c x Hs Hx Hst) as (x'' & Hx'' & Hst' & Hco' & Hfl').
+      rewrite Hx' in Hx''. injection Hx'' as <-. split; [exact Hst'|]. split; congruence.
+  - (* the window of k *)
+    intros x' Hx' Hh. destruct (Hold _ _ Hx') as [x Hx].
+    destruct (hosting x) eqn:Hhx.
+    + destruct (window_step s e s' k x Hx Hhx (H8 x Hx Hhx) Hs) as (x'' & Hx'' & _ & Hw).
+      * intros c q -> Hhead. destruct (Hup _ _ _ Hhead) as (_ & _ & ?). contradiction.
+      * intros h ->. exfalso. destruct (deliver_down_head _ _ _ _ Hs) as [m Hhead]. apply head_elem_of in Hhead.
+        destruct (H5 _ _ _ Hhead) as (_ & [(_ & ? & _)|(_ & _ & _ & Hhk)]); [congruence|].
+        rewrite (pget_Some _ _ _ _ _ Hx) in Hhk. congruence.
+      * rewrite Hx' in Hx''. injection Hx'' as <-. exact Hw.
+    + destruct (hosting_rises_only_by_promote s e s' k Hs) as (h & -> & Hhead).
+      { rewrite (pget_Some _ _ _ _ _ Hx). exact Hhx. } { rewrite (pget_Some _ _ _ _ _ Hx'). exact Hh. }
+      destruct (promote_opens_window s h k s' Hinv Hs Hhead) as (x'' & Hx'' & _ & _ & Hw).
+      { rewrite (pget_Some _ _ _ _ _ Hx). exact Hhx. }
+      rewrite Hx' in Hx''. injection Hx'' as <-. exact Hw.
+  - (* the clients of k *)
+    intros x' c Hx' Hin. destruct (Hold _ _ Hx') as [x Hx].
+    destruct (decide (c ∈ clients x)) as [Hc|Hc]; [eapply H9; eauto|].
+    destruct (clients_grow_only_by_connect s e s' k x x' c Hs Hx Hx' Hin Hc) as (-> & Hco & Hsk).
+    unfold pget in Hco, Hsk. destruct (ps s !! c) as [y|] eqn:Hy; [|discriminate].
+    destruct (decide (c = host)) as [->|Hc0]; [reflexivity|]. exfalso.
+    destruct (decide (c = k)) as [->|Hck].
+    + apply Hk. eapply H3; eauto.
+    + destruct (H7 c y Hy Hc0 Hck) as [(_ & U2 & _)|((_ & S2 & _) & _)]; [|congruence].
+      rewrite U2 in Hco. injection Hco as Hco. apply Hk. symmetry. exact Hco.
+Qed.
+
+Lemma spi_hosting_step k s e s' :
+  roles_inv s -> spi k s -> internal e = true -> step s e = Some s' ->
+  pget hosting false s k = true -> pget hosting false s' k = true.
+Proof.
+  intros Hinv (Hk & H1 & H2 & H3 & H4 & H5 & H6 & H7 & H8 & H9) Hi Hs Hh.
+  unfold pget in Hh. destruct (ps s !! k) as [x|] eqn:Hx; [|discriminate].
+  destruct (window_step s e s' k x Hx Hh (H8 x eq_refl Hh) Hs) as (x'' & Hx'' & Hh' & _).
+  - intros c q -> Hhead. apply head_elem_of in Hhead.
+    destruct (H6 _ _ _ Hhead) as [?|(_ & _ & ?)]; [discriminate|contradiction].
+  - intros h ->. exfalso. destruct (deliver_down_head _ _ _ _ Hs) as [m Hhead]. apply head_elem_of in Hhead.
+    destruct (H5 _ _ _ Hhead) as (_ & [(_ & ? & _)|(_ & _ & _ & Hhk)]); [congruence|].
+    rewrite (pget_Some _ _ _ _ _ Hx) in Hhk. congruence.
+  - rewrite (pget_Some _ _ _ _ _ Hx''). exact Hh'.
+Qed.
+
+Lemma spi_run k tr : forall s s', roles_inv s -> spi k s -> all_internal tr -> run s tr = Some s' ->
+  roles_inv s' /\ spi k s' /\ (pget hosting false s k = true -> pget hosting false s' k = true).
+Proof.
+  induction tr as [|e tr IH]; intros s s' Hinv Hspi Hall Hrun; simpl in Hrun.
+  - inversion Hrun; subst. split; [assumption|split; [assumption|intros H; exact H]].
+  - destruct (step s e) as [s1|] eqn:Hs; [|discriminate]. apply Forall_cons in Hall as [Hi Hall].
+    destruct (IH s1 s' (roles_inv_step _ _ _ Hinv Hs) (spi_step _ _ _ _ Hinv Hspi Hi Hs) Hall Hrun) as (A & B & C).
+    split; [exact A|]. split; [exact B|]. intros Hh. apply C. exact (spi_hosting_step _ _ _ _ Hinv Hspi Hi Hs Hh).
+Qed.
+
+(* ---------- the state right after the request ---------- *)
+
+Lemma promoted_eq n k : k ∈ client_ids n ->
+  step (session n) (EPromote host k) = Some (promoted n k) /\ promoted n k = push_down (session n) host k Promote.
+Proof.
+  intros Hk. assert (Hk0 : k <> host) by (apply elem_of_client_ids in Hk; unfold host; lia).
+  assert (Hstep : step (session n) (EPromote host k) = Some (push_down (session n) host k Promote)).
+  { unfold step. rewrite !session_lookup. rewrite decide_True by reflexivity.
+    rewrite (decide_False _ _ Hk0), (decide_True _ _ Hk).
+    unfold srv_gate, idle_host; simpl. rewrite (bool_decide_eq_true_2 _ Hk). reflexivity. }
+  unfold promoted. rewrite Hstep. auto.
+Qed.
+
+Lemma spi_promoted n k : k ∈ client_ids n -> roles_inv (promoted n k) /\ spi k (promoted n k).
+Proof.
+  intros Hk. destruct (promoted_eq n k Hk) as [Hstep Heq].
+  split; [eapply roles_inv_step; [apply roles_inv_session|exact Hstep]|].
+  assert (Hk0 : k <> host) by (apply elem_of_client_ids in Hk; unfold host; lia).
+  rewrite Heq.
+  assert (Hl : forall p, ps (push_down (session n) host k Promote) !! p = ps (session n) !! p) by reflexivity.
+  assert (Hd : forall h c, chan (down (push_down (session n) host k Promote)) h c =
+                           if decide ((h, c) = (host, k)) then [Promote] else []).
+  { intros h c. rewrite down_push_down, chan_push. unfold session; simpl. unfold chan. rewrite !lookup_empty. reflexivity. }
+  assert (Hu : forall c h, chan (up (push_down (session n) host k Promote)) c h = []).
+  { intros c h. unfold chan, session; simpl. rewrite lookup_empty. reflexivity. }
+  split; [exact Hk0|]. split_and?.
+  - intros p x Hx Hh. rewrite Hl, session_lookup in Hx. repeat case_decide; simplify_eq; simpl in *; try discriminate; auto.
+  - intros p x Hx Hh. rewrite Hl, session_lookup in Hx. repeat case_decide; simplify_eq; simpl in *; discriminate.
+  - intros x h Hx Hc. rewrite Hl, session_lookup in Hx. repeat case_decide; simplify_eq; simpl in *; try discriminate; try congruence.
+  - intros x h Hx Hc. rewrite Hl, session_lookup in Hx. repeat case_decide; simplify_eq; simpl in *; try discriminate; try congruence.
+  - intros h c m Hm. rewrite Hd in Hm. case_decide as Hhc; [|inversion Hm]. injection Hhc as -> ->.
+    apply elem_of_list_singleton in Hm as ->. split; [reflexivity|]. right. split; [reflexivity|]. split; [reflexivity|].
+    split; [rewrite Hd, decide_True by reflexivity; reflexivity|].
+    unfold pget. rewrite Hl, session_lookup, (decide_False _ _ Hk0), (decide_True _ _ Hk). reflexivity.
+  - intros c h m Hm. rewrite Hu in Hm. inversion Hm.
+  - intros c x Hx Hc0 Hck. rewrite Hl, session_lookup in Hx. rewrite (decide_False _ _ Hc0) in Hx.
+    case_decide as Hc; simplify_eq. left. unfold untouched, idle_client; simpl. split_and?; try reflexivity.
+    exists (idle_host (client_ids n)). rewrite Hl, session_lookup, decide_True by reflexivity. auto.
+  - intros x Hx Hh. rewrite Hl, session_lookup in Hx. rewrite (decide_False _ _ Hk0), (decide_True _ _ Hk) in Hx.
+    simplify_eq; simpl in *; try discriminate.
+  - intros x c Hx Hc. rewrite Hl, session_lookup in Hx. rewrite (decide_False _ _ Hk0), (decide_True _ _ Hk) in Hx.
+    simplify_eq; simpl in *; try (inversion Hc).
+Qed.
+
+Lemma run_dom tr : forall s s', run s tr = Some s' -> forall p, is_Some (ps s' !! p) <-> is_Some (ps s !! p).
+Proof.
+  induction tr as [|e tr IH]; intros s s' Hrun p; simpl in Hrun.
+  - inversion Hrun; subst. reflexivity.
+  - destruct (step s e) as [s1|] eqn:Hs; [|discriminate]. rewrite (IH _ _ Hrun). apply (step_dom _ _ _ Hs).
+Qed.
+
+(* ---------- the theorems ---------- *)
+
+(* (1) whatever the application does (any number of promotions, of anybody, at any time) *)
+Theorem promotion_preserves_roles_invariant n tr s : run (session n) tr = Some s -> roles_inv s.
+Proof. intros Hrun. eapply roles_inv_run; [apply roles_inv_session|exact Hrun]. Qed.
+Print Assumptions promotion_preserves_roles_invariant.
+
+(* (2) one promotion in a session of any size: at every point of every run *)
+Theorem single_promotion_invariant n k tr s :
+  k ∈ client_ids n -> all_internal tr -> run (promoted n k) tr = Some s -> roles_inv s /\ spi k s.
+Proof.
+  intros Hk Hall Hrun. destruct (spi_promoted n k Hk) as [Hinv Hspi].
+  destruct (spi_run k tr _ _ Hinv Hspi Hall Hrun) as (A & B & _). auto.
+Qed.
+Print Assumptions single_promotion_invariant.
+
+Lemma elem_of_hosts s p : p ∈ hosts s <-> exists x, ps s !! p = Some x /\ hosting x = true.
+Proof.
+  unfold hosts. rewrite elem_of_list_fmap. split.
+  - intros ([q x] & -> & Hin). apply elem_of_list_filter in Hin as [Hh Hin]. apply elem_of_map_to_list in Hin. eauto.
+  - intros (x & Hx & Hh). exists (p, x). split; [reflexivity|]. apply elem_of_list_filter. split; [exact Hh|].
+    apply elem_of_map_to_list. exact Hx.
+Qed.
+
+Corollary at_most_two_hosts n k tr s :
+  k ∈ client_ids n -> all_internal tr -> run (promoted n k) tr = Some s -> forall p, p ∈ hosts s -> p = host \/ p = k.
+Proof.
+  intros Hk Hall Hrun p Hp. destruct (single_promotion_invariant n k tr s Hk Hall Hrun) as (_ & _ & H1 & _).
+  apply elem_of_hosts in Hp as (x & Hx & Hh). eauto.
+Qed.
+
+(* a promoted peer that hosts keeps hosting *)
+Corollary promoted_host_keeps_hosting n k tr s tr' s' :
+  k ∈ client_ids n -> all_internal tr -> run (promoted n k) tr = Some s ->
+  all_internal tr' -> run s tr' = Some s' ->
+  pget hosting false s k = true -> pget hosting false s' k = true.
+Proof.
+  intros Hk Hall Hrun Hall' Hrun' Hh. destruct (single_promotion_invariant n k tr s Hk Hall Hrun) as (Hinv & Hspi).
+  destruct (spi_run k tr' _ _ Hinv Hspi Hall' Hrun') as (_ & _ & C). auto.
+Qed.
+
+(* S8 for every n: with a second client c the promotion NEVER reaches its goal -- at no point of any
+   run; c is an ordinary client of the old host until it obeys NewHost, stranded from then on, and
+   never enters the client table of the new host *)
+Theorem C07_never_with_more_clients n k c tr s :
+  k ∈ client_ids n -> c ∈ client_ids n -> c <> k -> all_internal tr -> run (promoted n k) tr = Some s ->
+  (exists x, ps s !! c = Some x /\ (untouched s c x \/ (stranded x /\ client_of x = Some k /\ flag x = true))) /\
+  (forall d, d ∈ pget clients [] s k -> d = host) /\
+  ~ session_ok s k.
+Proof.
+  intros Hk Hc Hck Hall Hrun. destruct (single_promotion_invariant n k tr s Hk Hall Hrun) as (Hinv & Hspi).
+  destruct Hspi as (Hk0 & H1 & H2 & H3 & H4 & H5 & H6 & H7 & H8 & H9).
+  assert (Hc0 : c <> host) by (apply elem_of_client_ids in Hc; unfold host; lia).
+  assert (Hdom : is_Some (ps s !! c)).
+  { apply (run_dom _ _ _ Hrun). destruct (promoted_eq n k Hk) as [_ ->]. rewrite ps_push_down, session_lookup.
+    rewrite (decide_False _ _ Hc0), (decide_True _ _ Hc). eauto. }
+  destruct Hdom as [x Hx]. pose proof (H7 c x Hx Hc0 Hck) as Hcase.
+  split; [eauto|]. split.
+  - intros d Hd. unfold pget in Hd. destruct (ps s !! k) as [xk|] eqn:Hxk; [|inversion Hd]. eapply H9; eauto.
+  - intros [_ Hok]. destruct (Hok c x Hx Hck) as (Hco & Hl & _).
+    destruct Hcase as [(_ & U2 & _)|((_ & _ & S3 & _) & _)]; [|congruence].
+    rewrite U2 in Hco. injection Hco as Hco. apply Hk0. symmetry. exact Hco.
+Qed.
+Print Assumptions C07_never_with_more_clients.
+
+(* the hypotheses are satisfiable and the disjunction is not vacuous: in the S8 witness state peer 2 is
+   in its second case *)
+Example C07_never_example :
+  exists x, ps s8_state !! 2 = Some x /\ stranded x /\ client_of x = Some 1 /\ flag x = true.
+Proof. eexists. split; [vm_compute; reflexivity|]. vm_compute. repeat split; eauto. Qed.
+
+(* (3) a promoted peer that hosts keeps hosting, in ANY session and whatever else goes on (other
+   promotions included), as long as it does not itself handle another promotion message *)
+Theorem hosting_after_promotion s h p s1 tr s' :
+  roles_inv s -> step s (EDeliverDown h p) = Some s1 -> head (chan (down s) h p) = Some Promote ->
+  pget hosting true s p = false ->
+  run s1 tr = Some s' -> quiet_for p s1 tr -> pget hosting false s' p = true.
+Proof.
+  intros Hinv Hs Hhead Hnh Hrun Hq.
+  destruct (promote_opens_window s h p s1 Hinv Hs Hhead Hnh) as (x1 & Hx1 & Hh1 & _ & Hw1).
+  clear Hs Hhead Hnh Hinv. revert s1 x1 Hx1 Hh1 Hw1 Hrun Hq.
+  induction tr as [|e tr IH]; intros s1 x1 Hx1 Hh1 Hw1 Hrun Hq; simpl in Hrun, Hq.
+  - inversion Hrun; subst. rewrite (pget_Some _ _ _ _ _ Hx1). exact Hh1.
+  - destruct Hq as [Hnot Hq]. destruct (step s1 e) as [s2|] eqn:Hs; [|discriminate].
+    destruct (window_step s1 e s2 p x1 Hx1 Hh1 Hw1 Hs) as (x2 & Hx2 & Hh2 & Hw2).
+    + intros c q -> Hc. apply Hnot. left. eauto.
+    + intros h' ->. destruct (decide (head (chan (down s1) h' p) = Some ReqInit)) as [Hy|Hn]; [exact Hy|].
+      exfalso. apply Hnot. right. eauto.
+    + eapply IH; eauto.
+Qed.
+Print Assumptions hosting_after_promotion.
+
+Definition handles_promo_msgb (s : pstate) (e : pevent) (p : peer) : bool :=
+  match e with
+  | EDeliverUp c p' => bool_decide (p' = p) && match head (chan (up s) c p) with Some (NewHost _) => true | _ => false end
+  | EDeliverDown h p' => bool_decide (p' = p) && negb (bool_decide (head (chan (down s) h p) = Some ReqInit))
+  | _ => false
+  end.
+Lemma handles_promo_msgb_complete s e p : handles_promo_msg s e p -> handles_promo_msgb s e p = true.
+Proof.
+  intros [(c & q & -> & Hh)|(h & -> & Hh)]; simpl.
+  - rewrite bool_decide_eq_true_2 by reflexivity. rewrite Hh. reflexivity.
+  - rewrite bool_decide_eq_true_2 by reflexivity. rewrite bool_decide_eq_false_2 by exact Hh. reflexivity.
+Qed.
+Fixpoint quiet_forb (p : peer) (s : pstate) (tr : list pevent) : bool :=
+  match tr with
+  | [] => true
+  | e :: tr => negb (handles_promo_msgb s e p) && match step s e with Some s' => quiet_forb p s' tr | None => true end
+  end.
+Lemma quiet_forb_true p tr : forall s, quiet_forb p s tr = true -> quiet_for p s tr.
+Proof.
+  induction tr as [|e tr IH]; intros s Hq; simpl in *; [exact I|].
+  apply andb_true_iff in Hq as [Hn Hq]. split.
+  - intros Hh. apply handles_promo_msgb_complete in Hh. rewrite Hh in Hn. discriminate.
+  - destruct (step s e); [apply IH; exact Hq|exact I].
+Qed.
+
+(* non-vacuity: the promoted peer of the S8 run; the rest of that run is quiet for peer 1 *)
+Example hosting_after_promotion_example :
+  let s1 := default (session 2) (step (promoted 2 1) (EDeliverDown 0 1)) in
+  step (promoted 2 1) (EDeliverDown 0 1) = Some s1 /\
+  head (chan (down (promoted 2 1)) 0 1) = Some Promote /\
+  pget hosting true (promoted 2 1) 1 = false /\
+  run s1 (tail s8_run) = Some s8_state /\ quiet_for 1 s1 (tail s8_run).
+Proof.
+  cbv zeta. split; [vm_compute; reflexivity|]. split; [vm_compute; reflexivity|]. split; [vm_compute; reflexivity|].
+  split; [vm_compute; reflexivity|]. apply quiet_forb_true. vm_compute. reflexivity.
+Qed.
+
+(* what the real code shows 30 frames after the promotion in a 3-peer session (harness scenario
+   "PEERS 3 / setup x3 / ROUND 10 / OP 0 promote 1 / ROUND 30"): the S8 run up to the netcode time-out
+   of the old host (15 s), which is the only thing still to happen *)
+Example s8_as_observed :
+  (fun s => (roles s, enabled s)) <$> run (promoted 2 1) (take 12 s8_run)
+  = Some ([(0, (true, SConnected, [2], Some 1, CConnected, true, false, false));
+           (1, (true, SConnected, [0], None, CDisconnected, false, true, false));
+           (2, (false, SDisconnected, [], Some 1, CConnected, false, true, true))], [ETimeout 0 2]).
+Proof. vm_compute. reflexivity. Qed.
+
 (* ================================================================================================
    Part 6: a chain of promotions (two peers): promote 1, then promote 0 back
    ================================================================================================ *)
@@ -668,7 +1291,7 @@ Lemma chain_checked :
   forallb (fun F => let s0 := promote_in F 1 0 in
                     let R := default [] (explore 1000 [s0] []) in
                     inb s0 R && checkb (chain_good F) R) finals1 = true.
-Proof. vm_compute. reflexivity. Qed.
+Proof. vm_cast_no_check (eq_refl true). Qed.
 
 Lemma promote_back_enabled : forallb (fun F => bool_decide (step F (EPromote 1 0) = Some (promote_in F 1 0))) finals1 = true.
 Proof. vm_compute. reflexivity. Qed.
@@ -718,6 +1341,20 @@ Proof.
   split; [unfold all_internal; repeat constructor|]. split; [vm_compute; reflexivity|].
   split; [apply stableb_true; vm_compute; reflexivity|vm_compute; reflexivity].
 Qed.
+
+Theorem C07_chain_refuted : ~ C07_chain_statement.
+Proof.
+  intros Hst. destruct chain_dead_reachable as (tr & F & Hall & Hrun & HstF & Hdead).
+  destruct (C07_chain_of_promotions tr F Hall Hrun HstF) as [_ Hc].
+  destruct (Hc [] (promote_in F 1 0) ltac:(constructor) eq_refl) as (_ & _ & tr'' & s' & Hall'' & Hrun'' & Hst').
+  pose proof (Hst tr F Hall Hrun HstF tr'' s' Hall'' Hrun'' Hst') as Hgood.
+  destruct (Hc tr'' s' Hall'' Hrun'') as (_ & Hbad & _). specialize (Hbad Hst'). rewrite Hdead in Hbad.
+  destruct Hgood as [(x & y & Hps & _ & Hx & _) _]. destruct Hbad as [(x' & y' & Hps' & _ & _ & _ & Hcl & _) _].
+  assert (H0 : ps s' !! (0 : peer) = Some x) by (rewrite Hps; apply lookup_insert).
+  assert (H0' : ps s' !! (0 : peer) = Some x') by (rewrite Hps'; apply lookup_insert).
+  rewrite H0 in H0'. injection H0' as <-. destruct Hx as (_ & _ & _ & _ & Hcl' & _). congruence.
+Qed.
+Print Assumptions C07_chain_refuted.
 
 (* the failing second promotion, event by event *)
 Definition ex_chain_broken : list pevent :=
